@@ -7,20 +7,24 @@ STATE = 'sync::semaphore::SemaphoreState'
 
 
 def find_wakeup_fn(F, E):
-    """role: the state method whose own body marks a queue token Notified"""
+    """role: the state method in whose body - own code or the private helpers / closures it calls, but not another
+    state method it calls - a queue token is marked Notified"""
+    from rl import call_stacks, innermost
+    methods = [m for m in F.methods_of(STATE) if m.get('name') != 'new']
+    names = set(m['path'] for m in methods)
     found = []
-    for m in F.methods_of(STATE):
-        if m.get('name') == 'new':
-            continue
+    for m in methods:
+        hit = False
         for path in E.run(m['path']):
-            hit = False
-            for e in path.events:
-                if e['k'] == 'write' and e['fn'] == m['path'] and e['loc'][0][0] == 'tok' \
-                        and loc_endswith(e['loc'], 'state') and e['val'][0] == 'agg' and e['val'][2] == 'Notified':
+            stacks = call_stacks(path)
+            for i, e in enumerate(path.events):
+                if e['k'] == 'write' and e['loc'][0][0] == 'tok' and loc_endswith(e['loc'], 'state') \
+                        and e['val'][0] == 'agg' and e['val'][2] == 'Notified' and innermost(stacks[i], names) == m['path']:
                     hit = True
             if hit:
-                found.append(m)
                 break
+        if hit:
+            found.append(m)
     if len(found) != 1:
         raise CheckerError('anchor=semaphore wake-up walk: expected exactly one function that marks queue tokens '
                            'Notified, found %s' % [f['path'] for f in found])
